@@ -231,3 +231,23 @@ Example ex_repair_pipeline :
   | _ => None end
   = Some ([2; 4], [0; 1; 1; 1], [1; 2; 0; 0], [-1; -1; 1; 2]).
 Proof. vm_compute. reflexivity. Qed.
+
+(* sort_row_multiset: the same rows in two orders (edges with metadata, migrations, sites) *)
+From TskVerif Require Import C07.RowOrderProofs.
+Definition ro_a : tables :=
+  mkTables 10 [mkNode 1 0 0 (-1) []; mkNode 1 0 0 (-1) []; mkNode 0 1 0 (-1) []]
+    [mkE 0 10 2 1; mkE 0 10 2 0] (concat [[7]; [8; 9]]) (offsets_of 0 [[7]; [8; 9]])
+    [mkSite 5 [65] []; mkSite 2 [67] [1]] []
+    [mkG 0 10 1 0 1 3; mkG 0 5 0 1 0 1] (concat [[]; [4]]) (offsets_of 0 [[]; [4]]) [] [[]; []] None.
+Definition ro_b : tables :=
+  mkTables 10 [mkNode 1 0 0 (-1) []; mkNode 1 0 0 (-1) []; mkNode 0 1 0 (-1) []]
+    [mkE 0 10 2 0; mkE 0 10 2 1] (concat [[8; 9]; [7]]) (offsets_of 0 [[8; 9]; [7]])
+    [mkSite 2 [67] [1]; mkSite 5 [65] []] []
+    [mkG 0 5 0 1 0 1; mkG 0 10 1 0 1 3] (concat [[4]; []]) (offsets_of 0 [[4]; []]) [] [[]; []] None.
+Example ex_row_multiset :
+  Permutation (combine (t_edges ro_a) [[7]; [8; 9]]) (combine (t_edges ro_b) [[8; 9]; [7]]) /\
+  Permutation (t_sites ro_a) (t_sites ro_b) /\ ro_a <> ro_b /\
+  table_sort Qmerge None ro_a = table_sort Qmerge None ro_b.
+Proof.
+  split; [apply perm_swap|]. split; [apply perm_swap|]. split; [discriminate|]. vm_compute. reflexivity.
+Qed.
